@@ -15,7 +15,7 @@ import (
 
 // C15 — middlewares wrap every request as an onion, each exactly once.
 
-var c15Behaviours = []string{"pass", "modreq", "modres", "short", "fail"}
+var c15Behaviours = []string{"pass", "modreq", "modres", "short", "fail", "failafter"} // failafter: calls the next stage, then returns its result together with an error
 var c15Methods = []string{"tools/call", "tools/list", "prompts/get", "resources/read", "ping", "foo/unknown"}
 
 type c15Mark struct{}
@@ -54,6 +54,9 @@ func c15MW(i int, beh string, tr *c15Trace, only string) mcp.Middleware {
 			}
 			r, err := next(ctx, req)
 			tr.add(req.ID, fmt.Sprintf("%d:after", i))
+			if beh == "failafter" {
+				return r, errors.New(fmt.Sprintf("mw-failafter-%d", i))
+			}
 			if beh == "modres" && err == nil {
 				if ctr, ok := r.(*mcp.CallToolResult); ok && ctr != nil {
 					cp := *ctr
@@ -89,6 +92,9 @@ func c15Expect(chain []string, method, sid string) (trace []string, kind string,
 		}
 		kd, tx := run(k+1, mark)
 		trace = append(trace, fmt.Sprintf("%d:after", k))
+		if chain[k] == "failafter" {
+			return "err", []string{fmt.Sprintf("mw-failafter-%d", k)}
+		}
 		if chain[k] == "modres" && kd == "ok" {
 			tx = append(append([]string{}, tx...), fmt.Sprintf("m%d", k))
 		}
@@ -358,7 +364,7 @@ func c15Concurrent(prefix []int, mode string, chain []string) explore.Outcome {
 	return finishOutcome(res, obs, viol, true)
 }
 
-var c15ConcChains = [][]string{{"pass", "modres"}, {"modreq", "modres"}, {"modreq", "modreq"}, {"pass", "fail"}, {"modres", "short"}}
+var c15ConcChains = [][]string{{"pass", "modres"}, {"modreq", "modres"}, {"modreq", "modreq"}, {"pass", "fail"}, {"modres", "short"}, {"failafter", "modres"}}
 
 func init() {
 	RegisterEnum(&Enum{Name: "c15/chains", Doc: "all middleware chains up to length 3 (4 thorough) over {pass, modify-request, modify-result, short-circuit, fail} x methods x option form x transport; reference onion interpreter",
